@@ -500,4 +500,20 @@ def LISTV(x):
     return isinstance(x, list)
 
 
+def RAWTEXT(x):
+    return str(x)
+
+
+def ORD(s):
+    return ord(s)
+
+
+def CLASSARG(p):
+    return p._ghost_classarg
+
+
+def NEGATED(p):
+    return p._Class__is_negated
+
+
 BUILTINS = {k: v for k, v in list(globals().items()) if k.isupper() or k in ("Witness",)}
